@@ -103,7 +103,19 @@ def setup():
     _T["state"] = typhon_state()
 
 
-class InjectedReadError(OSError):
+class InjectedRead(Exception):
+    """Marker for the failure the harness reader injects."""
+
+
+class InjectedKeyError(InjectedRead, KeyError):
+    """e.g. a field the file lacks"""
+
+
+class InjectedEOFError(InjectedRead, EOFError):
+    """e.g. a truncated file"""
+
+
+class InjectedReadError(InjectedRead, OSError):
     pass
 
 
@@ -152,6 +164,11 @@ def reader(file_info):
         sim.yield_(f"read:{rel}")
     if rel == st.w.get("unreadable"):
         st.fire("unreadable_file")
+        kind = st.w.get("read_exc", "OSError")
+        if kind == "KeyError":
+            raise InjectedKeyError(f"injected: no field in {rel}")
+        if kind == "EOFError":
+            raise InjectedEOFError(f"injected: {rel} ends early")
         raise InjectedReadError(5, f"injected EIO reading {rel}")
     if file_info.path.endswith(".nc"):
         return _T["NetCDF4"]().read(file_info)
@@ -282,6 +299,8 @@ def gen_workload(tape):
     # without: then the worker dies - only termination, soundness and
     # exactly-once are demanded in that case
     w["skip_errors"] = w["unreadable"] is None or not tape.flag("noskip", 1, 4)
+    # the class of the reader's failure: any exception makes a file unreadable
+    w["read_exc"] = tape.pick(["OSError", "OSError", "KeyError", "EOFError"], "read_exc")
     w["queue_delay"] = tape.pick([0, 1, 2], "qdelay")   # 0 none, 1 some, 2 many
     w["clock_jump"] = tape.flag("clockjump", 1, 6)
     stalls = {}
@@ -674,7 +693,7 @@ def _oracle(w, st, sim, outcome, policy, out_fs, procs, queues):
         # that error and the parent must still terminate (it did, we are here)
         tolerate_crash = True
         sim.probe("worker_died_of_unreadable_file")
-        bad = [p for p in crashed if not isinstance(p.error, InjectedReadError)]
+        bad = [p for p in crashed if not isinstance(p.error, InjectedRead)]
         if bad or not crashed:
             V.append(_viol("C05/unreadable-without-skip",
                            f"expected the affected worker(s) to end with the read "
